@@ -59,3 +59,89 @@ package alephium
 //@   ensures [value] err == nil ==> r != nil && (forall i in 0..32 :: at32(*r, i) == bytevecval(f)[i])
 //@   modifies fresh cell:Byte32
 //@   nopanic
+
+// fitsMsg: the six fields fit the VAA format (32-byte sender, target chain 0..65535,
+// sequence below 2^64, 4-byte nonce, any payload, consistency level 0..255).
+//@ pred fitsMsg(fs []sdk.Val) = len(fs) == 6
+//@   | && bytevecok(fs[0]) && len(bytevecval(fs[0])) == 32
+//@   | && u256ok(fs[1]) && 0 <= u256val(fs[1]) && u256val(fs[1]) <= 65535
+//@   | && u256ok(fs[2]) && 0 <= u256val(fs[2]) && u256val(fs[2]) <= 18446744073709551615
+//@   | && bytevecok(fs[3]) && len(bytevecval(fs[3])) == 4
+//@   | && bytevecok(fs[4])
+//@   | && u256ok(fs[5]) && 0 <= u256val(fs[5]) && u256val(fs[5]) <= 255
+
+//@ func ToWormholeMessage(fs []sdk.Val, txId string) (m *WormholeMessage, err error)
+//@   props C11
+//@   ensures [accept-iff-fits] err == nil <==> fitsMsg(fs)
+//@   ensures [reject-nil] err != nil ==> m == nil
+//@   ensures [sender] err == nil ==> (forall i in 0..32 :: at32(m.senderId, i) == bytevecval(fs[0])[i])
+//@   ensures [numbers] err == nil ==> m.targetChainId == u256val(fs[1]) && m.Sequence == u256val(fs[2]) && m.consistencyLevel == u256val(fs[5])
+//@   ensures [nonce] err == nil ==> m.nonce == be32at(bytevecval(fs[3]), 0)
+//@   ensures [payload] err == nil ==> m.payload == bytevecval(fs[4]) && m.txId == txId
+//@   modifies fresh lib:big.Int.v, fresh cell:uint8, fresh cell:Byte32, fresh WormholeMessage.*
+//@   nopanic
+
+//@ func (w *WormholeMessage) toMessagePublication(header *sdk.BlockHeaderEntry) (p *common.MessagePublication)
+//@   props C11
+//@   requires w != nil && header != nil && header.Timestamp >= 0
+//@   ensures [time] unix(p.Timestamp) == header.Timestamp / 1000 && nsec(p.Timestamp) == (header.Timestamp % 1000) * 1000000
+//@   ensures [chain] p.EmitterChain == 255 && p.TargetChain == w.targetChainId
+//@   ensures [fields] p.EmitterAddress == w.senderId && p.Nonce == w.nonce && p.Sequence == w.Sequence && p.ConsistencyLevel == w.consistencyLevel && p.Payload == w.payload
+//@   modifies fresh common.MessagePublication.*
+//@   nopanic
+
+// Attestation payloads: offsets and total size are extracted on every run from
+// token_bridge.ral:attestToken (ral_attest_*).
+//@ func parseAttestToken(payload []byte) (t *TokenInfo, err error)
+//@   props C11
+//@   ensures [accept-iff] err == nil <==> len(payload) == ral_attest_size && be16at(payload, ral_attest_off_localChainId) == 255
+//@   ensures [token-id] err == nil ==> (forall i in 0..32 :: at32(t.TokenId, i) == payload[ral_attest_off_localTokenId + i])
+//@   ensures [decimals] err == nil ==> t.Decimals == payload[ral_attest_off_decimals]
+//@   ensures [symbol] err == nil ==> t.Symbol == bytes2str(trimzero(sub(payload, ral_attest_off_symbol, ral_attest_off_symbol + ral_attest_len_symbol)))
+//@   ensures [name] err == nil ==> t.Name == bytes2str(trimzero(sub(payload, ral_attest_off_name, ral_attest_off_name + ral_attest_len_name)))
+//@   modifies fresh TokenInfo.*
+//@   nopanic
+
+//@ lemma attest_layout_total()
+//@   props C11
+//@   ensures [contiguous] ral_attest_off_payloadId == 0 && ral_attest_off_localTokenId == 1 && ral_attest_off_localChainId == ral_attest_off_localTokenId + ral_attest_len_localTokenId && ral_attest_off_decimals == ral_attest_off_localChainId + ral_attest_len_localChainId && ral_attest_off_symbol == ral_attest_off_decimals + 1 && ral_attest_off_name == ral_attest_off_symbol + ral_attest_len_symbol && ral_attest_size == ral_attest_off_name + ral_attest_len_name
+//@   ensures [id] ral_attest_id == 2
+
+// ---------------------------------------------------------------- hex / contract-id helpers (C11)
+
+//@ func HexToFixedSizeBytes(str string, length int) (b []byte, err error)
+//@   props C11
+//@   requires [small-length] 0 <= length && length <= 1073741824
+//@   ensures [ok-iff] err == nil <==> len(str) == length * 2 && hexok(str)
+//@   ensures [value] err == nil ==> b == unhex(str) && len(b) == length
+//@   nopanic
+
+//@ func HexToByte32(str string) (b Byte32, err error)
+//@   props C11
+//@   ensures [ok-iff] err == nil <==> len(str) == 64 && hexok(str)
+//@   ensures [value] err == nil ==> (forall i in 0..32 :: at32(b, i) == unhex(str)[i])
+//@   nopanic
+
+//@ func (b Byte32) ToHex() (s string)
+//@   props C11
+//@   ensures [hex] s == hexs(bytes32(b))
+//@   nopanic
+
+//@ func ToContractId(address string) (id Byte32, err error)
+//@   props C11
+//@   ensures [ok-iff] err == nil <==> len(b58dec(address)) == 33
+//@   ensures [value] err == nil ==> (forall i in 0..32 :: at32(id, i) == b58dec(address)[1 + i])
+//@   nopanic
+
+//@ func ToContractAddress(contractId string) (a *string, err error)
+//@   props C11
+//@   ensures [ok-iff] err == nil <==> len(contractId) == 64 && hexok(contractId)
+//@   ensures [value] err == nil ==> a != nil && len(b58dec(*a)) == 33 && b58dec(*a)[0] == 3 && (forall i in 0..32 :: b58dec(*a)[1 + i] == unhex(contractId)[i])
+//@   modifies fresh cell:string
+//@   nopanic
+
+// hex and contract-id/address conversions are mutually inverse (over the contracts above)
+//@ lemma hex_roundtrip(b Byte32)
+//@   props C11
+//@   ensures [decodable] len(hexs(bytes32(b))) == 64 && hexok(hexs(bytes32(b)))
+//@   ensures [inverse] forall i in 0..32 :: unhex(hexs(bytes32(b)))[i] == at32(b, i)
